@@ -28,7 +28,7 @@ TrInit ==
 
 TrReset ==
     /\ IsEv("Reset")
-    /\ cfg' = [fn |-> Ln.fn, arg |-> Ln.arg, as |-> Ln.as, upt |-> Ln.upt]
+    /\ cfg' = [fn |-> Ln.fn, arg |-> Ln.narg, as |-> Ln.out, upt |-> Ln.upt]
     /\ st' = St0 /\ cur' = Cur0 /\ exp' = <<>> /\ emitted' = <<>> /\ refEmitted' = <<>>
     /\ UNCHANGED <<mode, open, nb>>
 
